@@ -219,9 +219,19 @@ func (c *Ctx) Report(viols []Viol, cases map[string]Case, module, cfg string) (v
 		if rerr != nil {
 			return n, rerr
 		}
-		ok, again, rerr := c.replayOnce(cd, module, cfg)
-		if rerr != nil {
-			return n, fmt.Errorf("replay of %s failed: %v", path, rerr)
+		// what a concurrency case shows depends on the scheduler: it is re-executed until the
+		// violation shows again (every execution is one of the real code), a bounded number of times
+		tries := 1
+		if cd.Case.Header().Family == "conc" {
+			tries = 40
+		}
+		var ok bool
+		var again []string
+		for t := 0; t < tries && !ok; t++ {
+			ok, again, rerr = c.replayOnce(cd, module, cfg)
+			if rerr != nil {
+				return n, fmt.Errorf("replay of %s failed: %v", path, rerr)
+			}
 		}
 		if !ok {
 			c.logf("UNREPRODUCED: case %s violated %v once but not when re-executed; no verdict from it", cd.Case.Header().ID, cd.Clauses)
